@@ -33,3 +33,8 @@ open BHS.Props.C13
 #print axioms C13_locator_heights_size
 #print axioms C13_locator_heights_size_u32
 #print axioms C13_locator_size
+#print axioms locHeights_doubling_sharp
+#print axioms locHeights_linear_exact
+#print axioms C13_locator_heights_le_hint
+#print axioms C13_locator_capacity_hint_generated
+#print axioms C13_locator_capacity_hint_low
